@@ -146,6 +146,8 @@ class DocutilsRenderer(RendererProtocol):
         }
         # mapping of section slug to (line, id, implicit_text)
         self._heading_slugs: dict[str, tuple[int | None, str, str]] = {}
+        # the files being included, outermost (the document itself) first
+        self._include_stack: list[str] = []
 
     @property
     def sphinx_env(self) -> BuildEnvironment | None:
